@@ -23,6 +23,11 @@ CONFIGS_QUICK = [
     ("TextLabel", ["Font", "TextXAlignment", "FontFace"], 2),
     # a class whose properties have no database default: the column's neutral value, with Enum and EnumItem inputs
     ("Player", ["CameraMode", "DevComputerMovementMode", "TeamColor"], 2),
+    # 5th element: the codec is configured with a database of one's own (Serializer / Deserializer::reflection_database):
+    # a copy of the bundled one with other defaults for Part.Size / Color / Transparency, TrussPart.Size, TextLabel.Text.
+    # The same patched database is exported for the specification, so "the database default for that class" is judged
+    # against the database in use
+    ("Part", ["Color", "Size", "Transparency"], 2, ("TrussPart", ["Size", "Color"]), True),
 ]
 CONFIGS_THOROUGH = [
     # (six spellings x 2 instances = 4096 populations took TLC 39 minutes and the replay longer still: five here)
@@ -54,7 +59,7 @@ def run(pid, tier, seed, replay=None):
     rep = Report(pid)
     build_harness()
     db = export_db()
-    env = {"DBJSON": db}
+    env = env0 = {"DBJSON": db}
     states = transitions = total = 0
     mc_runs = []
     samples = []
@@ -73,6 +78,12 @@ def run(pid, tier, seed, replay=None):
     for ci, config in enumerate(configs):
         cls, spellings, n = config[:3]
         companion = config[3] if len(config) > 3 else None
+        patched = len(config) > 4 and config[4]
+        env = dict(env0)
+        if patched:
+            pdb = os.path.join(OUT, "db_patched.json")
+            rbxv(["export-db", "--patched", 1], stdout_path=pdb)
+            env["DBJSON"] = pdb
         r = tlc("MCBinaryColumns", col_cfg("col%d" % ci, cls, spellings, n), workers=10, env=env, timeout=3000,
                 coverage=True, xmx="8g")
         v = tlc_violation(r)
@@ -104,7 +115,7 @@ def run(pid, tier, seed, replay=None):
         base = None
         events = []
         for proc in range(PROCESSES_QUICK if quick else PROCESSES_THOROUGH):
-            rbxv(["bin-pop"], stdin_path=ops, stdout_path=trace)
+            rbxv(["bin-pop"] + (["--patched", 1] if patched else []), stdin_path=ops, stdout_path=trace)
             evs = [json.loads(x) for x in open(trace) if x.strip()]
             for e in evs:
                 e["ep"] = "%s:p%d" % (e["ep"], proc)
@@ -135,7 +146,7 @@ def run(pid, tier, seed, replay=None):
             samples.append({"class": cls, "population": json.loads(pops[len(pops) // 2])})
         for p in (ops, trace):
             cleanup(p, rep)
-        log("[%s] %s %s x%d: %s states, %d populations replayed on rbx_binary" % (pid, cls, spellings, n, r.get("distinct"), nn))
+        log("[%s] %s %s x%d%s: %s states, %d populations replayed on rbx_binary" % (pid, cls, spellings, n, " (patched database)" if patched else "", r.get("distinct"), nn))
 
     rc = rep.finish()
     cov = {"states": states, "transitions": transitions, "traces_validated_against_impl": total, "samples": samples[:3],
